@@ -23,7 +23,7 @@ def owned(plugin, outdir):
         cands = [os.path.join(outdir, "lsprotocol", "src", "lib.rs")]
     elif plugin == "dotnet":
         d = os.path.join(outdir, "lsprotocol")
-        cands = [os.path.join(d, f) for f in sorted(os.listdir(d))] if os.path.isdir(d) else []
+        cands = sorted(os.path.join(dp, f) for dp, _, fs in os.walk(d) for f in fs) if os.path.isdir(d) else []  # sub-folders too
         cands = [c for c in cands if c.endswith(".cs")]
     else:
         cands = [os.path.join(outdir, f) for f in sorted(os.listdir(outdir))] if os.path.isdir(outdir) else []
@@ -56,6 +56,8 @@ def model_B(doc):
     stemming from B must not survive a later run on A)."""
     b = copy.deepcopy(doc)
     b["structures"].append({"name": "VerifStaleStruct", "properties": [{"name": "staleField", "type": {"kind": "base", "name": "string"}}, {"name": "other", "type": {"kind": "reference", "name": "VerifStaleEnum"}, "optional": True}]})
+    b["structures"].append({"name": "VerifStaleProposedStruct", "proposed": True, "properties": [{"name": "draftField", "type": {"kind": "base", "name": "uinteger"}, "optional": True}]})
+    b["enumerations"].append({"name": "VerifStaleProposedEnum", "proposed": True, "type": {"kind": "base", "name": "uinteger"}, "values": [{"name": "Draft", "value": 1}]})
     b["enumerations"].append({"name": "VerifStaleEnum", "type": {"kind": "base", "name": "string"}, "values": [{"name": "One", "value": "one"}, {"name": "Two", "value": "two"}]})
     b["requests"].append({"method": "verif/staleRequest", "typeName": "VerifStaleRequest", "messageDirection": "clientToServer", "params": {"kind": "reference", "name": "VerifStaleStruct"}, "result": {"kind": "or", "items": [{"kind": "reference", "name": "VerifStaleStruct"}, {"kind": "base", "name": "null"}]}})
     b["notifications"].append({"method": "verif/staleNotification", "typeName": "VerifStaleNotification", "messageDirection": "both", "params": {"kind": "reference", "name": "VerifStaleStruct"}})
@@ -307,6 +309,8 @@ def main(tier):
                     src = os.path.join(ref.outdir, rel)
                     dst = os.path.join(dV, rel)
                     os.makedirs(os.path.dirname(dst), exist_ok=True)
+                    if not os.path.exists(src):
+                        continue
                     data = open(src, "rb").read()
                     if variant == "crlf":
                         data = data.replace(b"\r\n", b"\n").replace(b"\n", b"\r\n")
@@ -469,7 +473,15 @@ def main(tier):
             futs = [ex.submit(do_plugin, pl) for pl in ("dotnet", "testdata", "python", "rust")]
             futs += [ex.submit(do_capture, sd) for sd in (seeds if tier != "quick" else seeds[:2])]
             for f in futs:
-                f.result()
+                try:
+                    f.result()
+                except Exception as e:
+                    # a history step of the harness itself tripped (typically over files an earlier,
+                    # already reported, divergence removed): inconclusive for the remaining steps of that
+                    # plugin - the failures recorded so far stand
+                    import traceback
+
+                    sinconc("history steps aborted: %s: %s" % (type(e).__name__, traceback.format_exc()[-300:]))
         rep.fail, rep.inconc = _fail, _inconc
         histories.append("testdata:full corpus in memory x hash seeds")
         if len(set(digests)) > 1:
